@@ -311,6 +311,22 @@ def variants(scs, tier):
     return out
 
 
+def regression_scenarios(copies=16):
+    """Directed cases for the repaired race between addCandidate and Restart (F-C18c, 264d3f6): the gather goroutine is held at
+    the task loop's yield point just before loop.Run's select (its context check already passed), Restart runs, then it is let go.
+    Go's select picks at random between the cancelled context and the hand-off, hence several copies."""
+    def st(*names):
+        out = []
+        for n in names:
+            a = n.rstrip("0123456789")
+            out.append({"a": a, "k": int(n[len(a):] or 0), "nowait": False})
+        return out
+    shapes = [("srflx-own", st("Gather", "Open1", "Hold", "Reply1", "Restart", "Free", "Settle", "Close", "Settle")),
+              ("host-udp", st("Gather", "Hold", "Open1", "Restart", "Free", "Settle", "Close", "Settle")),
+              ("relay", st("Gather", "Open1", "Hold", "Reply1", "Restart", "Free", "Settle", "Close", "Settle"))]
+    return [{"site": site, "fault": "none", "steps": steps} for _ in range(copies) for site, steps in shapes]
+
+
 def judge_scenarios(work, binary, verdict, stats, scs, preds, tag, featfn, conform=True, prop=None):
     for i, s in enumerate(scs):
         s["id"] = i + 1
@@ -368,6 +384,9 @@ def c09(tier, seed):
         stats["grid_cells"] = len(grid)
         stats["grid_sites_x_timings_x_terminators"] = sorted({"%s|%s|%s|%s|%s" % k for k in grid})[:400]
         judge_scenarios(work, binary, verdict, stats, scs + nw, C09_PREDS, "main", c09_features)
+        reg = regression_scenarios()
+        stats["scenarios_regression_handoff_race"] = len(reg)
+        judge_scenarios(work, binary, verdict, stats, reg, C09_PREDS, "regress", c09_features, conform=False)
         var = variants(scs, tier)
         if var:
             stats["scenarios_variants"] = len(var)
@@ -483,6 +502,9 @@ def c18(tier, seed):
             nw = nw[:1500]
         stats["scenarios_quiescent"], stats["scenarios_nowait"] = len(scs), len(nw)
         judge_scenarios(work, binary, verdict, stats, scs + nw, C18_CYCLE_PREDS, "cycle", lambda p, sc, recs, li, rid: c18c_features(p, sc, recs, li))
+        reg = regression_scenarios()
+        stats["scenarios_regression_handoff_race"] = len(reg)
+        judge_scenarios(work, binary, verdict, stats, reg, C18_CYCLE_PREDS, "regress", lambda p, sc, recs, li, rid: c18c_features(p, sc, recs, li), conform=False)
     verdict.coverage.update(stats)
     verdict.coverage["predicates"] = C18_SET_PREDS + C18_CYCLE_PREDS
     verdict.coverage["exhaustive"] = False
